@@ -49,6 +49,9 @@ fn report(prop: &str, known: &KnownFindings, rep: &ProgReplay, violations: &mut 
             }
         }
     }
+    if prop == "C09" && rep.message.contains("rustc rejects") && sibling_models_share_member_name(&rep.source) && (rep.message.contains("defined multiple times") || rep.message.contains("more than once") || rep.message.contains("already declared")) {
+        sig = "C09:sibling-models-share-member-name".to_string();
+    }
     if let Some(k) = known.known(prop, &sig) {
         println!("KNOWN-FINDING: property={} {}", prop, k.what);
         return;
@@ -61,6 +64,58 @@ fn report(prop: &str, known: &KnownFindings, rep: &ProgReplay, violations: &mut 
 
 // ------------------------------------------------------------------------------------------
 // C09
+
+/// Two `model` blocks of the source declare a member (type, pred, func) of the same name.
+pub fn sibling_models_share_member_name(source: &str) -> bool {
+    let mut seen: std::collections::BTreeSet<String> = Default::default();
+    let mut depth = 0usize;
+    let mut in_model = false;
+    let mut cur: Vec<String> = Vec::new();
+    for line in source.lines() {
+        let l = line.trim();
+        if depth == 0 && l.starts_with("model ") {
+            in_model = true;
+            cur.clear();
+        }
+        if in_model && depth >= 1 {
+            for kw in ["type ", "pred ", "func "] {
+                if let Some(r) = l.strip_prefix(kw) {
+                    let name: String = r.chars().take_while(|c| c.is_alphanumeric() || *c == '_' || *c == '\'').collect();
+                    if !name.is_empty() {
+                        cur.push(name);
+                    }
+                }
+            }
+        }
+        // single-line model blocks: `model M { type El; pred p(A); }`
+        if in_model && depth == 0 {
+            if let Some(i) = l.find('{') {
+                for part in l[i + 1..].split(';') {
+                    let part = part.trim();
+                    for kw in ["type ", "pred ", "func "] {
+                        if let Some(r) = part.strip_prefix(kw) {
+                            let name: String = r.chars().take_while(|c| c.is_alphanumeric() || *c == '_' || *c == '\'').collect();
+                            if !name.is_empty() {
+                                cur.push(name);
+                            }
+                        }
+                    }
+                }
+            }
+        }
+        depth += l.matches('{').count();
+        depth = depth.saturating_sub(l.matches('}').count());
+        if in_model && depth == 0 && l.contains('}') {
+            in_model = false;
+            for n in cur.drain(..) {
+                if !seen.insert(n) {
+                    return true;
+                }
+            }
+        }
+    }
+    false
+}
 
 fn c09_features(p: &Program, module: &str) -> Vec<&'static str> {
     let mut f = Vec::new();
@@ -167,6 +222,32 @@ pub fn c09_source_only(source: &str) -> Result<(), String> {
     Ok(())
 }
 
+/// Module mode (compiled as a library) and component mode (the CLI runs real rustc per rule).
+/// Ok(true) = accepted and compiles, Ok(false) = rejected by the compiler.
+pub fn c09_source_both(source: &str) -> Result<bool, String> {
+    let s = Scratch::new("c09g");
+    let src = s.join("src");
+    std::fs::create_dir_all(&src).unwrap();
+    std::fs::write(src.join("thy.eql"), source).unwrap();
+    let probe = pipeline::run_cli(&CliOpts { src: &src, out: &s.join("probe"), component_out: None, rustc_path: None, threads: None, envs: vec![], cwd: None });
+    if probe.out.timed_out || probe.rejected() {
+        return Ok(false);
+    }
+    c09_source_only(source)?;
+    let r = pipeline::run_cli(&CliOpts { src: &src, out: &s.join("out"), component_out: Some(&s.join("comp")), rustc_path: None, threads: None, envs: vec![], cwd: None });
+    if r.out.timed_out {
+        return Ok(true);
+    }
+    if !r.accepted() {
+        let e = r.out.stderr_str();
+        if r.crashed() {
+            return Err(format!("Component build: compiler crashed (exit {:?})", r.out.code));
+        }
+        return Err(format!("Component build: the compiler accepts the program in module mode but the component build fails: {}", e.lines().find(|l| l.starts_with("error")).or(e.lines().next()).unwrap_or("")));
+    }
+    Ok(true)
+}
+
 pub fn run_c09(tier: &str, seed: u64) -> campaign::CampaignResult {
     let start = Instant::now();
     let np = env_usize("EQV_NPROG", if tier == "thorough" { 1500 } else { 40 });
@@ -186,6 +267,70 @@ pub fn run_c09(tier: &str, seed: u64) -> campaign::CampaignResult {
     }
     let results: Vec<(Result<(), String>, Vec<&'static str>, bool)> = programs.par_iter().map(|pc| c09_one(&pc.program, &pc.source)).collect();
     let mut violations = 0;
+    // modules derived from the full surface grammar (models with member types / functions / rules,
+    // morphism terms, enums, named arguments): no signature is known to the harness, so the module-mode
+    // output is compiled as a library and the component build must succeed
+    let ng = env_usize("EQV_NGRAM", if tier == "thorough" { 3000 } else { 80 });
+    let gram_sources: Vec<String> = pt::draw_tapes(seed ^ 0x6772, ng, 500).into_iter().map(|tape| crate::gram::gen_module(&tape, 0)).collect();
+    let gram_results: Vec<Result<bool, String>> = gram_sources.par_iter().map(|src| c09_source_both(src)).collect();
+    for (src, res) in gram_sources.iter().zip(gram_results.iter()) {
+        ev.evaluations += 1;
+        ev.count("profile.grammar", 1);
+        if src.matches("\nmodel ").count() + if src.starts_with("model ") { 1 } else { 0 } >= 2 {
+            ev.count("grammar.modules_with_two_or_more_models (member names made unique: recorded finding sibling-models-share-member-name excluded)", 1);
+        }
+        match res {
+            Ok(true) => {
+                ev.count("accepted", 1);
+                ev.count("grammar.accepted", 1);
+                let mut feats: Vec<&str> = Vec::new();
+                for (needle, f) in [("model ", "model_declaration"), ("Mor(", "morphism_type"), ("@(", "morphism_application"), ("enum ", "enum"), ("match ", "enum_match"), ("branch ", "branch"), (": ", "typing_premise_or_named_argument")] {
+                    if src.contains(needle) {
+                        feats.push(f);
+                        ev.count(&format!("grammar.feature.{}", f), 1);
+                    }
+                }
+                if src.contains("model ") {
+                    ev.nontrivial.insert(util::hash64(&[src.as_bytes()]));
+                    ev.sample(json!({"program": src, "features": feats}), 5);
+                }
+            }
+            Ok(false) => ev.count("grammar.rejected", 1),
+            Err(msg) => {
+                // minimise: drop top-level declarations / lines while it still fails the same way
+                let class = sig_of("C09", msg);
+                let mut cur = src.clone();
+                let mut budget = if violations < 3 { 120 } else { 0 };
+                let mut chunk = (cur.lines().count() / 2).max(1);
+                while budget > 0 {
+                    let ls: Vec<&str> = cur.lines().collect();
+                    let mut improved = false;
+                    let mut i = 0;
+                    while i < ls.len() && budget > 0 {
+                        let cand: String = ls.iter().enumerate().filter(|(j, _)| *j < i || *j >= i + chunk).map(|(_, l)| format!("{}\n", l)).collect();
+                        budget -= 1;
+                        if let Err(m2) = c09_source_both(&cand) {
+                            if sig_of("C09", &m2) == class {
+                                cur = cand;
+                                improved = true;
+                                break;
+                            }
+                        }
+                        i += chunk;
+                    }
+                    if !improved {
+                        if chunk == 1 {
+                            break;
+                        }
+                        chunk = (chunk / 2).max(1);
+                    }
+                }
+                let msg2 = c09_source_both(&cur).err().unwrap_or_else(|| msg.clone());
+                let rep = ProgReplay { kind: "c09".into(), property: "C09".into(), program: None, source: cur, message: msg2, detail: json!({"generator": "grammar"}), seed };
+                report("C09", &known, &rep, &mut violations);
+            }
+        }
+    }
     for (pc, (res, feats, accepted)) in programs.iter().zip(results.iter()) {
         ev.evaluations += 1;
         ev.count(&format!("profile.{}", pc.profile.name), 1);
@@ -211,7 +356,7 @@ pub fn run_c09(tier: &str, seed: u64) -> campaign::CampaignResult {
         }
     }
     ev.extra.insert("programs".into(), json!(ev.evaluations));
-    ev.rule = "programs from the typed generator (profile `wide`: arities up to 9, constants, nullary predicates, enums, plus the other profiles), each compiled by the repository CLI in module mode and in component mode (real rustc per rule) and linked into a driver that runs an empty history; non-trivial = accepted and has one of: relation with >= 5 columns, diagonal index, >= 3 index orders for one relation, enum match, rule with empty premise, model declaration; distinct by source hash".into();
+    ev.rule = "programs from the typed generator (profile `wide`: arities up to 9, constants, nullary predicates, enums, plus the other profiles), each compiled by the repository CLI in module mode and in component mode (real rustc per rule) and linked into a driver that runs an empty history; plus modules derived from the full surface grammar (models with member types/predicates/functions/rules, Mor types, dom/cod, morphism application, enums, named arguments; mostly well-typed by construction, no reference semantics) whose module-mode output is compiled as a library and whose component build must succeed; non-trivial = accepted and has one of: relation with >= 5 columns, diagonal index, >= 3 index orders for one relation, enum match, rule with empty premise, model declaration; distinct by source hash".into();
     ev.assumptions = vec!["identifiers come from pools that avoid Rust keywords and names the generator emits".into()];
     ev.violations = violations as u64;
     ev.wall_s = start.elapsed().as_secs_f64();
